@@ -169,6 +169,7 @@ pub fn ack_shapes(tier: Tier) -> Vec<(usize, u64, &'static str)> {
 pub fn run(tier: Tier) -> i32 {
     let mut rep = Report::new("C13", tier);
     // the thorough bounds of this property take seconds: the quick tier runs them too
+    crate::report::note_tier(tier);
     let tier = { let _ = tier; Tier::Thorough };
     rep.rule("(a) sweep: every pair (quick) / triple (thorough) of message lengths 1188..1201 (+ many-small and 64/70-slice messages) on a reliable and an unreliable channel x 8 packet-sequence classes x 8 message-id classes across the varint width boundaries, flushed by the real sender; every packet <= 1300 B, never PacketSerialization, and the peer reads back every message; (b) ack packets for 1..160 pending ranges x 5 spacings x 3 arrival orders built through process_packet, plus the ack-world DFS; (c) the C01 schedule exploration re-run with the size oracle on every flush; (d) netcode datagrams: see part netcode");
     // (a)
@@ -235,6 +236,7 @@ pub fn replay(j: &J) -> i32 {
         Some("thorough") => Tier::Thorough,
         _ => Tier::Quick,
     };
+    crate::report::note_tier(tier);
     let tier = { let _ = tier; Tier::Thorough };
     match j.get("kind").and_then(|k| k.as_str()) {
         Some("pack") => {
